@@ -137,6 +137,12 @@ def main(argv=None) -> int:
     except HarnessError as e:
         print(f"HARNESS-ERROR: {e}")
         return 2
+    except Exception as e:  # noqa: BLE001  a crash of the machinery is never exit 1 (that code means VIOLATION)
+        import traceback
+
+        traceback.print_exc()
+        print(f"HARNESS-ERROR: unexpected {type(e).__name__}: {e}")
+        return 2
     finally:
         print(f"[check] {time.time() - t0:.1f}s", flush=True)
 
